@@ -226,6 +226,7 @@ class Ctx:
         self.prop, self.tier, self.seed, self.meta = prop, tier, seed, meta
         self.rng = random.Random(f"{prop}:{seed}")
         self.t0 = time.time()
+        self.t_budget0 = self.t0  # the exploration budget starts after the Lean build + audit
         self.evaluations = 0
         self.nontrivial: set[Any] = set()
         self.hist: Counter[str] = Counter()
@@ -241,7 +242,7 @@ class Ctx:
 
     # -- bookkeeping ---------------------------------------------------------------------
     def time_left(self) -> float:
-        return self.budget_s - (time.time() - self.t0)
+        return self.budget_s - (time.time() - self.t_budget0)
 
     def ev(self, n: int = 1) -> None:
         self.evaluations += n
@@ -289,6 +290,12 @@ class Ctx:
         Returns True when everything checks.  A failure is recorded as broken-proof (the caller
         still runs its search for a failing input)."""
         mods = list(proof_modules if proof_modules is not None else self.meta["lean_modules"])
+        try:
+            return self._lean(mods)
+        finally:
+            self.t_budget0 = time.time()
+
+    def _lean(self, mods: list[str]) -> bool:
         ok, log = lake_build(["XdslModel", "driver", *self.meta.get("extra_targets", []), *mods])
         if not ok:
             # distinguish model/driver build errors in proof modules from infra
